@@ -1,0 +1,62 @@
+//go:build verif
+
+package bridgesync
+
+import (
+	"context"
+	"database/sql"
+
+	"github.com/agglayer/aggkit/log"
+	"github.com/agglayer/aggkit/sync"
+	aggkittypes "github.com/agglayer/aggkit/types"
+	"github.com/ethereum/go-ethereum/common"
+)
+
+// NewVerifBridgeSync returns a real BridgeSync facade around a real processor, without
+// driver and downloader (queries only; blocks are fed through VerifStore).
+func NewVerifBridgeSync(dbPath string, syncerID BridgeSyncerType, originNetwork uint32,
+	rd ReorgDetector) (*BridgeSync, error) {
+	logger := log.WithFields("module", syncerID.String())
+	p, err := newProcessor(dbPath, "bridge_sync_"+syncerID.String(), logger)
+	if err != nil {
+		return nil, err
+	}
+	return &BridgeSync{
+		processor:     p,
+		originNetwork: originNetwork,
+		reorgDetector: rd,
+		blockFinality: aggkittypes.LatestBlock,
+	}, nil
+}
+
+// VerifStore exposes ProcessBlock / Reorg / GetLastProcessedBlock of the processor.
+func (s *BridgeSync) VerifStore() VerifStoreIface { return s.processor }
+
+// VerifDB exposes the database handle (to close it / to inspect tables).
+func (s *BridgeSync) VerifDB() *sql.DB { return s.processor.db }
+
+// VerifIsHalted reports the halted flag.
+func (s *BridgeSync) VerifIsHalted() bool { return s.processor.isHalted() }
+
+// VerifBuildAppender builds the real log appender map.
+func VerifBuildAppender(client aggkittypes.EthClienter, bridgeAddr common.Address,
+	syncFullClaims bool) (sync.LogAppenderMap, error) {
+	bridgeContractV2, err := newVerifBridgeV2(bridgeAddr, client)
+	if err != nil {
+		return nil, err
+	}
+	return buildAppender(client, bridgeAddr, syncFullClaims, bridgeContractV2, log.WithFields("module", "verif"))
+}
+
+// VerifSetClaimCalldata runs the real trace-to-claim extraction.
+func VerifSetClaimCalldata(c *Claim, client aggkittypes.RPCClienter, bridge common.Address,
+	txHash common.Hash) error {
+	return c.setClaimCalldata(client, bridge, txHash, log.WithFields("module", "verif"))
+}
+
+// VerifStoreIface is the write side of the store as the EVM driver sees it.
+type VerifStoreIface interface {
+	GetLastProcessedBlock(ctx context.Context) (uint64, error)
+	ProcessBlock(ctx context.Context, block sync.Block) error
+	Reorg(ctx context.Context, firstReorgedBlock uint64) error
+}
